@@ -5,6 +5,7 @@ import (
 	"context"
 	"encoding/hex"
 	"fmt"
+	"runtime/debug"
 	"sort"
 	"strings"
 	"testing/synctest"
@@ -33,6 +34,7 @@ type flight struct {
 	busy   *cOwner
 
 	everBlocked bool
+	panicked    string
 }
 
 type world struct {
@@ -213,6 +215,12 @@ func (w *world) issue(c *cClient, op *opSpec) {
 	args := buildCompound(op)
 	ctx := context.WithValue(context.Background(), ctlKey{}, fl.ctl)
 	go func() {
+		defer func() {
+			if r := recover(); r != nil {
+				fl.panicked = fmt.Sprintf("%v\n%s", r, debug.Stack())
+				fl.done <- nil
+			}
+		}()
 		res, err := w.program.NfsV4Nfsproc4Compound(ctx, args)
 		if err != nil {
 			res = nil
@@ -281,6 +289,9 @@ func (w *world) settle(fl *flight, out outcome) {
 	op := fl.op
 	res, blocked := fl.observe()
 	if blocked == "error" {
+		if fl.panicked != "" {
+			w.fail(w.prof.property, "step %d %s: the server panicked while executing the request: %s", op.N, op.Kind, fl.panicked)
+		}
 		w.fail(out.class, "step %d %s: COMPOUND returned a Go error", op.N, op.Kind)
 	}
 	if blocked != out.blocked {
